@@ -147,7 +147,8 @@ fn process_z80r_block<H: Host>(emulator: &mut Emulator<H>, block_data: &[u8]) ->
         block_data[30],
         block_data[31],
         block_data[32],
-    ]) as usize;
+    ]) as usize
+        % emulator.settings.machine.specs().clocks_frame;
 
     // chHoldIntReqCycles
     // Ignored block_data 33
